@@ -337,17 +337,18 @@ class BaseEngine(abc.ABC):
         # setting shots >1 for a TDM program corresponds to further unrolling the program,
         # meaning that we still only need to execute it once
         tdm_options = {"modes": None, "shots": 1 if shots else None, "received_rolled": False}
-        if program.is_unrolled:
-            tdm_options["received_rolled"] = True
 
-        # if a tdm program is input in a rolled state, then unroll it
+        # if a tdm program is input in a rolled state, then unroll it; `received_rolled` records
+        # that the engine (space-)unrolled the program itself and has to roll it back afterwards
         if kwargs.get("space_unroll", False):
             if program.space_unrolled_circuit is None:
                 program.space_unroll(shots=shots or 1)
+                tdm_options["received_rolled"] = True
         else:
             # if `space_unroll != True`, only unroll it iff it isn't already unrolled
             if not program.is_unrolled:
                 program.unroll(shots=shots or 1)
+                tdm_options["received_rolled"] = True
 
         if program.space_unrolled_circuit is not None:
             if kwargs.get("crop", False):
